@@ -431,12 +431,12 @@ impl Scanner {
                 let quit = rune.len() == 1 && rune[0] == quote;
                 result.append(&mut rune);
                 if quit {
-                    break;
+                    return Ok(result);
                 }
             }
         }
 
-        if result.len() >= 2 && result.last() == Some(&quote) {
+        if quote == '`' && result.len() >= 2 && result.last() == Some(&quote) {
             return Ok(result);
         }
 
